@@ -74,6 +74,7 @@ func checkC01(c *Ctx, r *rep.Report) {
 	ruleScMinExact(r, p, rl)
 	ruleSmallOrder(r, p, rl)
 	ruleWriteDom2(r, p, rl)
+	scalarLayer(c, r)
 }
 
 func checkC05(c *Ctx, r *rep.Report) {
